@@ -23,35 +23,48 @@ Proof. intros a b H. destruct (cid_eqb a b) eqn:E; [|reflexivity]. apply cid_eqb
 
 Section Hash.
   Variable B : Type.
-  Variable H : N -> B -> bytes.
+  Variable H : N -> B -> option bytes.
 
-  (** the validating blockstore hands out [b] only if [b] hashes to the requested CID, whatever the backing store holds *)
+  (** the validating blockstore hands out [b] only if [b] is known to hash to the requested CID
+      (the digest is computable and equal), whatever the backing store holds *)
   Theorem vget_sound : forall backing c b, vget B H backing c = OOk b ->
-    sum B H (c_pref c) b = c /\ backing = Some b.
+    sum B H (c_pref c) b = Some c /\ backing = Some b.
   Proof.
     intros backing c b E. unfold vget in E. destruct backing as [b0|]; [|discriminate].
-    destruct (cid_eqb (sum B H (c_pref c) b0) c) eqn:Ec; [|discriminate].
-    injection E as <-. split; [now apply cid_eqb_eq|reflexivity].
+    destruct (sum B H (c_pref c) b0) as [c'|] eqn:Es; [|discriminate].
+    destruct (cid_eqb c' c) eqn:Ec; [|discriminate].
+    injection E as <-. apply cid_eqb_eq in Ec. subst c'. split; [assumption|reflexivity].
   Qed.
 
-  (** complete characterisation: intact -> the block; anything else stored -> ErrHashMismatch; nothing -> NotFound *)
-  Theorem vget_char : forall backing c,
-    vget B H backing c =
-      match backing with
-      | None => ONotFound
-      | Some b => if cid_eqb (sum B H (c_pref c) b) c then OOk b else OHashMismatch
-      end.
-  Proof. reflexivity. Qed.
-
-  Theorem vget_intact : forall pref b, vget B H (Some b) (sum B H pref b) = OOk b.
-  Proof. intros pref b. unfold vget. cbn [sum c_pref]. fold (sum B H pref b). rewrite (proj2 (cid_eqb_eq _ _) eq_refl). reflexivity. Qed.
+  Theorem vget_intact : forall pref b d, H pref b = Some d -> vget B H (Some b) (Cid pref d) = OOk b.
+  Proof.
+    intros pref b d Hd. unfold vget, sum. cbn [c_pref]. rewrite Hd. cbn [option_map].
+    now rewrite (proj2 (cid_eqb_eq _ _) eq_refl).
+  Qed.
 
   (** any stored content whose digest differs from the requested one (every flip, truncation, extension
       of the block, unless it is a hash collision) is refused *)
-  Theorem vget_corrupted : forall c b', H (c_pref c) b' <> c_digest c -> vget B H (Some b') c = OHashMismatch.
+  Theorem vget_corrupted : forall c b' d, H (c_pref c) b' = Some d -> d <> c_digest c ->
+    vget B H (Some b') c = OHashMismatch.
   Proof.
-    intros c b' Hne. unfold vget. rewrite cid_eqb_neq; [reflexivity|].
+    intros c b' d Hd Hne. unfold vget, sum. rewrite Hd. cbn [option_map]. rewrite cid_eqb_neq; [reflexivity|].
     intros E. apply Hne. rewrite <- E. reflexivity.
+  Qed.
+
+  (** when no digest can be computed for the requested CID (unknown hash code, impossible digest
+      length) the answer is an error, never the stored bytes *)
+  Theorem vget_uncomputable : forall c b', H (c_pref c) b' = None -> vget B H (Some b') c = OOther.
+  Proof. intros c b' Hn. unfold vget, sum. now rewrite Hn. Qed.
+
+  (** altogether: Get never answers with a block except in the intact case *)
+  Theorem vget_ok_iff : forall backing c b,
+    vget B H backing c = OOk b <-> backing = Some b /\ H (c_pref c) b = Some (c_digest c).
+  Proof.
+    intros backing c b. split.
+    - intros E. destruct (vget_sound _ _ _ E) as [Es ->]. split; [reflexivity|].
+      unfold sum in Es. destruct (H (c_pref c) b) as [d|]; [|discriminate]. cbn in Es. injection Es as Es.
+      rewrite <- Es. reflexivity.
+    - intros [-> Hd]. destruct c as [p d]. cbn [c_pref c_digest] in *. now apply vget_intact.
   Qed.
 End Hash.
 
@@ -60,21 +73,22 @@ Lemma region_length : forall content off size, off + size <= N.of_nat (length co
 Proof. intros content off size Hl. unfold region. rewrite firstn_length, skipn_length. lia. Qed.
 
 Section FsHash.
-  Variable H : N -> bytes -> bytes.
+  Variable H : N -> bytes -> option bytes.
 
   (** a file reference: data comes back only if it is the region [offset, offset+size) of the file AS IT IS
       NOW (any state [f], i.e. after any modification, truncation, removal since the reference was written)
-      and that region hashes to the reference's CID *)
+      and that region is known to hash to the reference's CID *)
   Theorem fs_read_sound : forall allow r f off size want b,
     fs_read H allow r f off size want = OOk b ->
-    sum bytes H (c_pref want) b = want /\ read_at r f off size = inl b /\ allow = true /\
+    sum bytes H (c_pref want) b = Some want /\ read_at r f off size = inl b /\ allow = true /\
     (size <> 0 -> exists content, f = FFile content /\ off + size <= N.of_nat (length content) /\ b = region content off size).
   Proof.
     intros allow r f off size want b E. unfold fs_read in E.
     destruct allow; cbn [negb] in E; [|discriminate].
     destruct (read_at r f off size) as [b0|s] eqn:Er; [|discriminate].
-    destruct (cid_eqb (sum bytes H (c_pref want) b0) want) eqn:Ec; [|discriminate].
-    injection E as <-. apply cid_eqb_eq in Ec. repeat split; try assumption.
+    destruct (sum bytes H (c_pref want) b0) as [c'|] eqn:Es; [|discriminate].
+    destruct (cid_eqb c' want) eqn:Ec; [|discriminate].
+    injection E as <-. apply cid_eqb_eq in Ec. subst c'. repeat split; try assumption.
     intros Hs. apply N.eqb_neq in Hs. unfold read_at in Er.
     destruct f as [| |content]; [discriminate| |].
     - destruct r; [rewrite Hs in Er|]; discriminate.
@@ -86,8 +100,6 @@ Section FsHash.
         apply N.leb_le in El. injection Er as <-. repeat split; assumption.
   Qed.
 
-  (** error classes: vanished -> NotFound; shrunk below the region -> Changed (mmap reader: an error when
-      even the offset is gone); region present but with another digest -> Changed *)
   Theorem fs_read_gone : forall r off size want, fs_read H true r FGone off size want = OCorrupt StFileNotFound.
   Proof. reflexivity. Qed.
 
@@ -106,51 +118,59 @@ Section FsHash.
       destruct (N.leb_spec (off + size) (N.of_nat (length content))); [lia|reflexivity].
   Qed.
 
-  Theorem fs_read_changed : forall r content off size want, size <> 0 ->
+  Lemma read_at_inside : forall r content off size, size <> 0 -> off + size <= N.of_nat (length content) ->
+    read_at r (FFile content) off size = inl (region content off size).
+  Proof.
+    intros r content off size Hs Hl. unfold read_at. apply N.eqb_neq in Hs. destruct r.
+    - rewrite Hs. destruct (N.leb_spec (off + size) (N.of_nat (length content))); [reflexivity|lia].
+    - destruct (N.ltb_spec (N.of_nat (length content)) off); [lia|].
+      destruct (N.leb_spec (off + size) (N.of_nat (length content))); [reflexivity|lia].
+  Qed.
+
+  Theorem fs_read_changed : forall r content off size want d, size <> 0 ->
     off + size <= N.of_nat (length content) ->
-    H (c_pref want) (region content off size) <> c_digest want ->
+    H (c_pref want) (region content off size) = Some d -> d <> c_digest want ->
     fs_read H true r (FFile content) off size want = OCorrupt StFileChanged.
   Proof.
-    intros r content off size want Hs Hl Hne. unfold fs_read, read_at. cbn [negb].
-    apply N.eqb_neq in Hs.
-    assert (Hc : cid_eqb (sum bytes H (c_pref want) (region content off size)) want = false).
-    { apply cid_eqb_neq. intros E. apply Hne. rewrite <- E. reflexivity. }
-    destruct r.
-    - rewrite Hs. destruct (N.leb_spec (off + size) (N.of_nat (length content))); [|lia]. now rewrite Hc.
-    - destruct (N.ltb_spec (N.of_nat (length content)) off); [lia|].
-      destruct (N.leb_spec (off + size) (N.of_nat (length content))); [|lia]. now rewrite Hc.
+    intros r content off size want d Hs Hl Hd Hne. unfold fs_read. cbn [negb].
+    rewrite read_at_inside by assumption. unfold sum. rewrite Hd. cbn [option_map].
+    rewrite cid_eqb_neq; [reflexivity|]. intros E. apply Hne. rewrite <- E. reflexivity.
   Qed.
 
-  Theorem fs_read_intact : forall r content off size, off + size <= N.of_nat (length content) ->
-    fs_read H true r (FFile content) off size (sum bytes H 0 (region content off size)) = OOk (region content off size)
-    \/ size = 0.
+  (** no digest computable for the reference's multihash: an error, never data *)
+  Theorem fs_read_uncomputable : forall allow r f off size want,
+    (forall b, H (c_pref want) b = None) ->
+    forall b, fs_read H allow r f off size want <> OOk b.
   Proof.
-    intros r content off size Hl. destruct (N.eq_dec size 0) as [->|Hs]; [now right|left].
-    unfold fs_read, read_at. cbn [negb]. apply N.eqb_neq in Hs.
-    assert (Hc : cid_eqb (sum bytes H (c_pref (sum bytes H 0 (region content off size))) (region content off size))
-                         (sum bytes H 0 (region content off size)) = true) by (now apply cid_eqb_eq).
-    destruct r.
-    - rewrite Hs. destruct (N.leb_spec (off + size) (N.of_nat (length content))); [|lia]. now rewrite Hc.
-    - destruct (N.ltb_spec (N.of_nat (length content)) off); [lia|].
-      destruct (N.leb_spec (off + size) (N.of_nat (length content))); [|lia]. now rewrite Hc.
+    intros allow r f off size want Hn b E. apply fs_read_sound in E. destruct E as [Es _].
+    unfold sum in Es. now rewrite Hn in Es.
   Qed.
 
-  (** a URL reference: data comes back only if it is the first [size] bytes of a 200/206 answer and hashes to the CID *)
+  Theorem fs_read_intact : forall r content off size pref d, size <> 0 ->
+    off + size <= N.of_nat (length content) -> H pref (region content off size) = Some d ->
+    fs_read H true r (FFile content) off size (Cid pref d) = OOk (region content off size).
+  Proof.
+    intros r content off size pref d Hs Hl Hd. unfold fs_read. cbn [negb].
+    rewrite read_at_inside by assumption. unfold sum. cbn [c_pref]. rewrite Hd. cbn [option_map].
+    now rewrite (proj2 (cid_eqb_eq _ _) eq_refl).
+  Qed.
+
+  (** a URL reference: data comes back only if it is the first [size] bytes of a 200/206 answer and is known to hash to the CID *)
   Theorem url_read_sound : forall allow code body size want b,
     url_read H allow code body size want = OOk b ->
-    sum bytes H (c_pref want) b = want /\ b = firstn (N.to_nat size) body /\
+    sum bytes H (c_pref want) b = Some want /\ b = firstn (N.to_nat size) body /\
     (code = 200 \/ code = 206) /\ size <= N.of_nat (length body) /\ allow = true.
   Proof.
     intros allow code body size want b E. unfold url_read in E.
     destruct allow; cbn [negb] in E; [|discriminate].
     destruct ((code =? 200) || (code =? 206)) eqn:Ecode; cbn [negb] in E; [|discriminate].
     destruct (N.ltb_spec (N.of_nat (length body)) size); [discriminate|].
-    destruct (cid_eqb (sum bytes H (c_pref want) (firstn (N.to_nat size) body)) want) eqn:Ec; [|discriminate].
-    injection E as <-. apply cid_eqb_eq in Ec. apply orb_prop in Ecode.
+    destruct (sum bytes H (c_pref want) (firstn (N.to_nat size) body)) as [c'|] eqn:Es; [|discriminate].
+    destruct (cid_eqb c' want) eqn:Ec; [|discriminate].
+    injection E as <-. apply cid_eqb_eq in Ec. subst c'. apply orb_prop in Ecode.
     repeat split; try assumption. destruct Ecode as [Ecode|Ecode]; apply N.eqb_eq in Ecode; [now left|now right].
   Qed.
 
-  (** the Filestore front: with the block absent from the main blockstore, Get is the reference read *)
   Theorem filestore_get_ref : forall ref, filestore_get None ref = ref.
   Proof. reflexivity. Qed.
 End FsHash.
